@@ -47,7 +47,13 @@ pub fn f32_case(case: &Case) -> Option<Case> {
         let extent = bbox_of(&edges).map(|b| (b.2 - b.0).max(b.3 - b.1)).unwrap_or(0.0);
         // coordinates fit 22 bits and coordinate differences 11 bits, so that every product the library forms in
         // single precision is exact
-        if g.is_finite() && (m / g >= (1u64 << 21) as f64 || extent / g >= 2048.0) {
+        if case.family == "flat-oct" {
+            // anisotropic power-of-two scaling: every product the library forms scales consistently, so exactness in
+            // f32 is that of the unscaled lattice; only representability of the coordinates limits kx
+            if m >= (1u64 << 23) as f64 {
+                return None;
+            }
+        } else if g.is_finite() && (m / g >= (1u64 << 21) as f64 || extent / g >= 2048.0) {
             return None;
         }
         return Some(c);
